@@ -1488,6 +1488,7 @@ func c20Run(raw []byte) (*Line, error) {
 		}
 	}
 	atomic.StoreInt64(&c20PanicCount, 0)
+	atomic.StoreInt32(&c20CanaryFirstCall, 1)
 	r1 := c20Call1(inst)
 	panics := atomic.LoadInt64(&c20PanicCount)
 	if os.Getenv("C20_FRESH") != "" {
